@@ -382,7 +382,13 @@ func c20registry() []c20entry {
 	}
 	add(c20entry{name: "project.Geometry", covers: []string{"project.Geometry", "project.Collection"},
 		call:  func(g orb.Geometry) interface{} { return project.Geometry(g, tag) },
-		typed: func(g orb.Geometry) (interface{}, bool) { return refProject(g, tag), true }})
+		typed: func(g orb.Geometry) (interface{}, bool) { return c20projectTyped(g, tag), true }})
+	// a point function that does not keep boxes axis-parallel (a quarter turn and a half, scaled): a Bound is, by the typed
+	// function's definition, still the box of its two projected corners
+	turn := func(p orb.Point) orb.Point { return orb.Point{p[0] - p[1], p[0] + p[1] + 7} }
+	add(c20entry{name: "project.Geometry (turning point function)", covers: []string{"project.Geometry", "project.Collection"},
+		call:  func(g orb.Geometry) interface{} { return project.Geometry(g, turn) },
+		typed: func(g orb.Geometry) (interface{}, bool) { return c20projectTyped(g, turn), true }})
 	for _, sm := range []struct {
 		n string
 		s orb.Simplifier
@@ -604,6 +610,30 @@ func sameResult(a, b interface{}) bool {
 	return reflect.DeepEqual(a, b)
 }
 
+// c20projectTyped is the projection package's kind-specific function for g's kind (the reference model for collections,
+// which have no other kind-specific function than the one under test).
+func c20projectTyped(g orb.Geometry, f orb.Projection) orb.Geometry {
+	switch x := g.(type) {
+	case orb.Point:
+		return project.Point(x, f)
+	case orb.MultiPoint:
+		return project.MultiPoint(x, f)
+	case orb.LineString:
+		return project.LineString(x, f)
+	case orb.MultiLineString:
+		return project.MultiLineString(x, f)
+	case orb.Ring:
+		return project.Ring(x, f)
+	case orb.Polygon:
+		return project.Polygon(x, f)
+	case orb.MultiPolygon:
+		return project.MultiPolygon(x, f)
+	case orb.Bound:
+		return project.Bound(x, f)
+	}
+	return refProject(g, f)
+}
+
 // c20scribble overwrites every vertex of g in place (through the slices g holds).
 func c20scribble(g orb.Geometry) {
 	junk := orb.Point{-9.5e9, 7.25e-9}
@@ -739,6 +769,9 @@ func init() {
 			// the clone is a value of its own: once it has been judged, overwriting every vertex of it must leave the argument as it was
 			defer func() {
 				if rg, ok := res.(orb.Geometry); ok && rg != nil {
+					if !partsIndependent(rg) {
+						c.Fail("", "the parts of a clone share memory: appending to one part overwrites another", map[string]interface{}{"case": d(), "clone_now": fmt.Sprintf("%#v", rg)})
+					}
 					c20scribble(rg)
 					if !refmodel.EqualBits(arg, snap) {
 						c.Fail("", "writing to the vertices of a clone changed the value it was cloned from", map[string]interface{}{"case": d(), "after": fmt.Sprintf("%#v", arg)})
